@@ -236,3 +236,10 @@ func uitoa(u uint64) string {
 	}
 	return string(b[i:])
 }
+
+// Deterministic iteration orders (Go map order is random; harness decisions must
+// depend on the seed only).
+func (st *Store) SortedSC() []types.SiacoinElement         { return sortedSC(st.SC) }
+func (st *Store) SortedSF() []types.SiafundElement         { return sortedSF(st.SF) }
+func (st *Store) SortedFC() []types.FileContractElement    { return sortedFC(st.FC) }
+func (st *Store) SortedV2FC() []types.V2FileContractElement { return sortedV2FC(st.V2FC) }
